@@ -156,6 +156,11 @@ Section Sim.
     - repeat split; auto.
     - repeat split; auto.
     - repeat split; auto.
+    - (* Wiped *)
+      apply (call set B s1 s2 (ORem []) q
+        (fun x => let (s', _) := x in (s', fresh [], Ok (ROpt None)))
+        (fun x => let (s', _) := x in (s', fresh [], Ok (ROpt None)))); auto; try (cbn [weight]; lia).
+      intros a1 a2 r Ha. repeat split; auto.
   Qed.
 End Sim.
 
